@@ -32,7 +32,21 @@ def main(argv):
         if not any(ch.tag in ("failure", "error", "skipped") for ch in tc):
             passed.add(name)
     os.unlink(out)
-    scope = {t for t in stable if not paths or any(t.startswith(p.rstrip("/").replace("/", ".").replace(".py", "")) for p in paths)}
+    def in_scope(t: str) -> bool:
+        if not paths:
+            return True
+        mod = t.split("::")[0]
+        for p in paths:
+            m = p.rstrip("/").replace("/", ".")
+            if m.endswith(".py"):
+                m = m[:-3]
+                if mod == m or mod.startswith(m + "."):      # module, or a test class in it
+                    return True
+            elif mod == m or mod.startswith(m + "."):
+                return True
+        return False
+
+    scope = {t for t in stable if in_scope(t)}
     lost = sorted(scope - passed)
     print("baseline subset: %d stable tests in scope, %d passed, %d lost" % (len(scope), len(scope & passed), len(lost)))
     for t in lost[:40]:
